@@ -367,6 +367,23 @@ def check(ctx):
     check_eval_and_spider(ctx)
     ctx.rule("R09.5", "the operations the evaluation is built from (then, tensor, dagger, swap, cups, caps of Tensor) have the matrix layout they claim (C08)")
     ctx.depend("R09.5", "C08", "evaluation composes the images with Tensor.then / tensor / swap / cups / dagger: each must contract and order the axes as a matrix product / Kronecker product", mod="discopy.tensor")
+    # the default function of a tensor bubble: logical negation as NUMBERS (booleans would add with `or` and contract with `and`)
+    from ..fold import fold as ffold, CannotFold
+    m = ctx.model
+    bi = m.func(TEN + ".Bubble.__init__")
+    a = bi.args
+    d = dict(zip([x.arg for x in a.args][len(a.args) - len(a.defaults):], a.defaults)).get("func")
+    ctx.need(isinstance(d, ast.Lambda) and len(d.args.args) == 1, "tensor.Bubble.__init__ has no lambda default for func")
+    bad = []
+    for x, want in ((0, 1), (1, 0), (2, 0), (0.0, 1), (0.5, 0)):
+        try:
+            got = ffold(d.body, {d.args.args[0].arg: x, "int": int, "float": float, "bool": bool, "abs": abs})
+        except CannotFold as e:
+            raise AnalysisError("tensor.Bubble default function cannot be folded: %s" % e)
+        if got != want or isinstance(got, bool):
+            bad.append("func(%r) = %r (%s), expected the number %d" % (x, got, type(got).__name__, want))
+    ctx.ob("R09.2", TEN + ".Bubble.__init__:default-func", not bad, found=bad[:2] or ast.unparse(d), required="entry-wise negation with numeric values 0 / 1 (sums and contractions of bubble tensors are arithmetic)", mod=TEN, node=d,
+           sig="bubble-default")
     ctx.floor("R09.1", 6)
     ctx.floor("R09.2", 14)
     ctx.floor("R09.3", 10)
